@@ -83,7 +83,7 @@ PROPS = {
         "gens": [{"name": "shared", "harness": "kernharness", "quick": 40, "thorough": 300},
                  {"name": "decpoison", "harness": "kernharness", "quick": 1500, "thorough": 6000},
                  {"name": "C09", "quick": 150, "thorough": 1000},
-                 {"name": "C14", "quick": 400, "thorough": 2500}],
+                 {"name": "C14", "quick": 400, "thorough": 2500}, {"name": "C11", "quick": 600, "thorough": 3000}],
         "needs": ["apiharness", "kernharness"],
         "nontrivial": {"shared", "karatsuba", "karatsubaSqr", "long", "alias", "inexact"},
         "rule": ("premises P1-P4 of the interleaving theorem tied deterministically: operand snapshots incl. backing arrays (API programs), pool "
@@ -129,6 +129,7 @@ PROPS = {
         "rule": ARITH_RULE + "Text(x, fmt, -1) for fmt in e E f g G p b and MarshalText, checked (a) to denote exactly x and to contain exactly MinPrec digits, then (b) parsed back into a receiver of precision >= MinPrec with base 10 or 0 and compared with x by Cmp and sign; values: dyadic, low zero words, specials, extreme exponents for exponent formats",
     },
     "C12": {
+        "extra_modules": ["C12b"],
         "gens": [{"name": "C12", "quick": 3000, "thorough": 15000}, {"name": "C11", "quick": 500, "thorough": 3000}],
         "nontrivial": {"rejected", "inexact", "underscore", "nondecimal-or-inf", "base10"},
         "rule": ARITH_RULE + "literals: well-formed base-10 (to thousands of digits, point anywhere, '_' in base 0, exponents at the int32 limits and beyond int64), base 2/8/16 with and without prefix and 'p' exponent, Inf spellings, mutated valid literals and random strings over the alphabet 0-9a-fA-FxXoOpP_.+-eEinfIN; compared three ways: Go Parse / Lean model of scan / math/big Float.Parse for acceptance and base; base-10 values against the exact literal value rounded once",
@@ -139,6 +140,7 @@ PROPS = {
         "rule": ARITH_RULE + "Text/Append with explicit precision 0..24 and fmt.Sprintf with verbs e E f F g G v, flags + space 0 -, width and precision, six modes; oracles: the printed value must be x rounded once at the requested position (Lean Spec), and for values that are exactly float64 in ToNearestEven the string must equal strconv.FormatFloat / fmt.Sprintf of that float64",
     },
     "C14": {
+        "extra_modules": ["C14b", "C14c"],
         "gens": [{"name": "C14", "quick": 2500, "thorough": 12000}],
         "nontrivial": {"inexact", "edge", "setint", "setrat", "newdec", "range"},
         "rule": ARITH_RULE + "conversions Int Int64 Uint64 Rat IsInt MinPrec Sign and setters SetInt SetInt64 SetUint64 SetRat NewDecimal; non-trivial = truncation happened, value within the 2^63/2^64/10^19 edge band, or a big-integer/rational setter",
